@@ -6,7 +6,7 @@ CONSTANTS
   HCap = 64
   Parts = 1
   WsMode = FALSE
-  MaxPub = 4
+  MaxPub = 3
   MaxRead = 2
   MaxStall = 2
   MaxSweep = 0
